@@ -311,6 +311,10 @@ def run_opmode(ck: Check, prop_file: str, n_quick=(70, 30, 3), n_thorough=(1400,
                   file=sys.stderr)
             cases.extend(gen_cases(ck, ns, nsingle, nv))
     else:
+        # deterministic boundary catalogue shared by the C04 / C06 / C07 / C14 op-mode stages
+        import opboundary
+        if os.environ.get("VERIF_OP_BOUNDARY", "1") != "0":
+            cases.extend(opboundary.cases(ck.prop, ck.seed, ck.quick, n_values=max(2, min(nv, 3))))
         cases.extend(gen_cases(ck, ns, nsingle, nv))
     jobs = []
     flag_cycle = [["gcc", "-O1"]] if ck.quick else [["gcc", "-O0"], ["gcc", "-O1"], ["gcc", "-O2"], ["gcc", "-O3"],
@@ -350,7 +354,7 @@ def run_opmode(ck: Check, prop_file: str, n_quick=(70, 30, 3), n_thorough=(1400,
         pool.defs.append(f"Definition t_{i} : ty := {s.coq_ty()}.")
         groups: List[Tuple[str, List[Any]]] = []
         # ---------------- T1 ----------------
-        if model_ok:
+        if model_ok and "(t2-only)" not in origin:
             try:
                 t1x: List[str] = []
                 t1m: List[Any] = []
@@ -507,11 +511,17 @@ def run_opmode(ck: Check, prop_file: str, n_quick=(70, 30, 3), n_thorough=(1400,
     cov["distinct_nontrivial"] = len([1 for (txt, val) in distinct if len(val) > 8])
     cov["rule"] = ("traditional schemas from tools/schema_gen.py (allow_ext=False: nesting, aliases to scalars and arrays, "
                    "enums, imports, permuted field numbers, weighted widths) plus a seed-chosen slice of the finite "
-                   "single-field space {bool, byte, uint1..64, int1..64} x offset 0..7 x {plain, alias, array, alias-to-array}; "
+                   "single-field space {bool, byte, uint1..64, int1..64} x offset 0..7 x {plain, alias, array, alias-to-array} "
+                   "plus the deterministic boundary catalogue tools/opboundary.py (arrays of capacity 32/64/255/256/300 of every "
+                   "whole-byte width, aligned and not, also as last field in front of the guard zone; arrays >= 256 of elements "
+                   "narrower than a byte; field names equal to identifiers of the generated code, also as array members of "
+                   "whole-byte array elements; same-named definitions in different scopes with different storage widths); "
                    "each x values in modes random/max/min/zero/ones; an evaluation is one (schema, value, build config) "
                    "Encode+Decode run of the gcc-built -O code or one random-buffer Decode; distinct = distinct "
                    "(main schema text, value tree) pairs")
     cov["tie"] = {**cov.get("tie", {}), "schemas": len(cases), "corpus": n_corpus,
+                  "boundary_catalogue": len([c for c in cases if c[2].startswith("opboundary:")]),
+                  "boundary_catalogue_executed_only": len([c for c in cases if "(t2-only)" in c[2]]),
                   "t1_functions_compared": n_stmt_funcs, "codes": counts, "tie_mismatches": n_tie,
                   "spec_mismatches": n_spec, "impl_failures": impl_fail,
                   "go": "T1 only: Go statements are parsed and compared with the plan; their semantics are modelled, never executed",
